@@ -89,7 +89,7 @@ def detect(name, checks):
     try:
         for c in checks:
             tier = os.environ.get("TIER", "quick")
-            rr = subprocess.run(["./check", c, "--tier", tier], cwd=HERE, capture_output=True, text=True)
+            rr = subprocess.run(["./check", c, "--tier", tier], cwd=HERE, capture_output=True, text=True, env=dict(os.environ, VERIF_EVIDENCE_DIR="/tmp/verif_mutant_evidence"))
             out = [l for l in rr.stdout.splitlines() if not NOISE.match(l)]
             verdict = [l for l in out if re.match(r"^C\d+ (held|VIOLATED)", l)] or [l for l in out if l.startswith("HARNESS")] or ["?"]
             first = [l.strip() for l in out if l.startswith("  violation")][:2]
